@@ -208,7 +208,10 @@ prop('C15', title='Keychain contents, defaults and signers stay consistent over 
                 'exception class injected at every database and TPM step: nothing uncommitted is left behind, failures are rolled back, '
                 'an orphan private key is removed, the signer cache is emptied before any deletion; TpmFile.get_signer / key_exist / '
                 'save_key / delete_key over a ghost file system: every operation addresses the file named after exactly that key name, '
-                'a deleted key\'s file is gone and no other file is touched, the signer is built from that file\'s content.',
+                'a deleted key\'s file is gone and no other file is touched, the signer is built from that file\'s content.'
+                'Identity / Key views (__len__, __getitem__, has_default_*, default_*): exactly one query, parameterised by the '
+                'owner\'s row id (scoped to the owner), looked up by the requested name, the returned Key / Certificate carries the '
+                'owner\'s name and the row\'s fields, KeyError only without a matching row of the owner.',
      technique=T_BOUNDED)
 prop('C17', title='Prefix registration speaks the forwarder management protocol correctly', level='proof',
      bounded=[('bounded.c17', 'run', SH)],
